@@ -145,7 +145,26 @@ P13 = {   # a qualifier spelled like a member of the module it names
             ('item.oal', 0, 4, 'item', 'decl', 'lib.item'), ('item.oal', 1, 4, 'other', 'decl', 'lib.other')],
     "nonident": [("main.oal", 1, 6)],
 }
-PROGRAMS = {"qualifier-spelled-like-a-member": P13, "two-parameters-of-one-name": P12, "built-in-function-in-use": P11, "adjacent-identifier-tokens": P10, "uses-at-the-start-of-a-line": P9, "one-name-three-roles": P8, "modules-in-sub-directories": P7, "unqualified-import": P5, "nested-same-name-binders": P6, "single-module": P1, "two-modules": P2, "shadowing-and-reference": P3, "sibling-modules-same-shape": P4}
+P14 = {   # declarations that span several lines and do not start their line; annotated declarations
+    "files": {"main.oal": 'use "lib.oal" as lib;  let people = [\n  lib.person\n];\n    let page = {\n      \'items people,\n      \'next lib.id\n    }; let last = page;\nres /p on get -> <last>;\n',
+              "lib.oal": "let id = num; let person = {\n  'id id,\n  'name str\n};\n# description: \"a team\"\nlet team = [\n  person\n];\n"},
+    "occ": [('main.oal', 0, 17, 'lib', 'qdecl', 'q'), ('main.oal', 0, 27, 'people', 'decl', 'people'), ('main.oal', 1, 2, 'lib', 'quse', 'q'), ('main.oal', 1, 6, 'person', 'use', 'lib.person'),
+            ('main.oal', 3, 8, 'page', 'decl', 'page'), ('main.oal', 4, 13, 'people', 'use', 'people'), ('main.oal', 5, 12, 'lib', 'quse', 'q'), ('main.oal', 5, 16, 'id', 'use', 'lib.id'),
+            ('main.oal', 6, 11, 'last', 'decl', 'last'), ('main.oal', 6, 18, 'page', 'use', 'page'), ('main.oal', 7, 18, 'last', 'use', 'last'),
+            ('lib.oal', 0, 4, 'id', 'decl', 'lib.id'), ('lib.oal', 0, 18, 'person', 'decl', 'lib.person'), ('lib.oal', 1, 6, 'id', 'use', 'lib.id'),
+            ('lib.oal', 5, 4, 'team', 'decl', 'lib.team'), ('lib.oal', 6, 2, 'person', 'use', 'lib.person')],
+    "nonident": [("main.oal", 0, 35)],
+}
+P15 = {   # top-level declarations are in scope throughout their module: uses that stand before the declaration
+    "files": {"main.oal": 'use "types.oal" as t;\nres /a on get -> <label & t.base>;\nlet wrap x = { \'w x, \'l label };\nlet label = { \'text str };\nres /b on get -> <wrap label>;\n',
+              "types.oal": "let base = { 'id num, 'more later };\nlet later = [str];\n"},
+    "occ": [('main.oal', 0, 19, 't', 'qdecl', 'q'), ('main.oal', 1, 18, 'label', 'use', 'label'), ('main.oal', 1, 26, 't', 'quse', 'q'), ('main.oal', 1, 28, 'base', 'use', 'lib.base'),
+            ('main.oal', 2, 4, 'wrap', 'decl', 'wrap'), ('main.oal', 2, 9, 'x', 'binder', 'wx'), ('main.oal', 2, 18, 'x', 'use', 'wx'), ('main.oal', 2, 24, 'label', 'use', 'label'),
+            ('main.oal', 3, 4, 'label', 'decl', 'label'), ('main.oal', 4, 18, 'wrap', 'use', 'wrap'), ('main.oal', 4, 23, 'label', 'use', 'label'),
+            ('types.oal', 0, 4, 'base', 'decl', 'lib.base'), ('types.oal', 0, 28, 'later', 'use', 'lib.later'), ('types.oal', 1, 4, 'later', 'decl', 'lib.later')],
+    "nonident": [("main.oal", 1, 24)],
+}
+PROGRAMS = {"uses-before-the-declaration": P15, "declarations-over-several-lines-mid-line": P14, "qualifier-spelled-like-a-member": P13, "two-parameters-of-one-name": P12, "built-in-function-in-use": P11, "adjacent-identifier-tokens": P10, "uses-at-the-start-of-a-line": P9, "one-name-three-roles": P8, "modules-in-sub-directories": P7, "unqualified-import": P5, "nested-same-name-binders": P6, "single-module": P1, "two-modules": P2, "shadowing-and-reference": P3, "sibling-modules-same-shape": P4}
 
 
 def relname(uri, root):
@@ -172,6 +191,42 @@ def text_of(files, fn, rng):
     if s["line"] != e["line"]:
         return None
     return lines[s["line"]][s["character"]:e["character"]]
+
+
+def extent_text(files, fn, rng):
+    """The text a (possibly multi-line) range selects in the client's copy of the document; None when the range names a
+    position the document does not have (a line past the end, a column past its line's end)."""
+    lines = files[fn].split("\n")
+
+    def off(p):
+        if p["line"] >= len(lines):
+            return None
+        line = lines[p["line"]]
+        body = line[:-1] if line.endswith("\r") else line
+        u16 = sum(2 if ord(ch) > 0xFFFF else 1 for ch in body)
+        if p["character"] > u16:
+            return None
+        return sum(len(x) + 1 for x in lines[:p["line"]]) + lspdrv.utf16_offset_to_index(body, p["character"])
+    a, b = off(rng["start"]), off(rng["end"])
+    if a is None or b is None or b < a:
+        return None
+    return files[fn][a:b]
+
+
+def is_binding_construct(text, name, role):
+    """Is `text` the construct that binds `name`: the whole declaration / import statement, or the binder itself."""
+    if text is None:
+        return False
+    if text == name:
+        return True
+    t = text.strip()
+    if role == "qdecl":
+        return t.startswith("use") and t.endswith(";") and t.count(";") == 1 and name in t
+    # a declaration: from its first token (annotations included) to its terminator, and nothing after it
+    body = t
+    while body.startswith("#") or body.startswith("`"):
+        body = body.split("\n", 1)[1].lstrip() if "\n" in body else ""
+    return body.startswith("let") and t.endswith(";") and body.count(";") == 1 and name in body.split("=", 1)[0]
 
 
 def apply_edits(files, changes, root):
@@ -248,6 +303,13 @@ def run(rdir, want=("definition", "references", "rename")):
                     ok = isinstance(r, dict) and relname(r.get("uri", ""), root) == bfn and contains(r["range"], bl, bc)
                     if not ok:
                         probs.append("%s: definition of '%s' at %s:%d:%d does not point at its binder %s:%d:%d (got %s)" % (pname, name, fn, l, c, bfn, bl, bc, json.dumps(r)[:120]))
+                    else:
+                        # ... and the location is the binding construct - all of it and nothing else
+                        brole = [o2[4] for o2 in P["occ"] if o2[5] == bid and o2[4] in ("decl", "binder", "qdecl")][0]
+                        ext = extent_text(files, bfn, r["range"])
+                        if not is_binding_construct(ext, binders[bid][3], brole):
+                            probs.append("%s: definition of '%s' at %s:%d:%d answers a range that is not the construct binding it (%s selects %r)" % (
+                                pname, name, fn, l, c, json.dumps(r["range"], sort_keys=True), (ext or "")[:60] if ext is not None else None))
             # ---- references
             if "references" in want and role == "decl":
                 r = req("textDocument/references", fn, l, c, {"context": {"includeDeclaration": False}})
